@@ -216,6 +216,7 @@ partial def loop (i o : IO.FS.Stream) : IO Unit := do
   let line ← i.getLine
   if line.isEmpty then return ()
   o.putStrLn (runCase line ++ "\t-")
+  o.flush
   loop i o
 
 def main : IO Unit := do
